@@ -12,6 +12,10 @@ Recipe grammar (JSON lists)
             | ["write", label, template]       Write(template)
             | ["cache", label, template]       Cache(root + "/" + template)
             | ["data", name]                   ordinary data element (rv.gen.func(name))
+            | ["acc", "fc" | "fr"]             accumulator (fill/compute or fill/request element)
+    node also ["fcseq", items] | ["frseq", items]: FillComputeSeq / FillRequestSeq whose items
+    hold exactly one ["acc", ..]; a tuple branch holding an ["acc", ..] is converted by Split.
+    For the static context they are sequences like any other.
 
 Nothing here imports lena: the model is independent of the code under test
 (own formatter, own nested update, own intersection).  The intersection mirrors
@@ -23,7 +27,7 @@ import copy
 import re
 
 CONSUMERS = ("store", "ucfs", "mkfn", "write", "cache")
-CONTAINERS = ("seq", "source", "split", "tuple", "bare")
+CONTAINERS = ("seq", "source", "split", "tuple", "bare", "fcseq", "frseq")
 KIND_NAME = {"store": "StoreContext", "ucfs": "UpdateContextFromStatic",
              "mkfn": "MakeFilename", "write": "Write", "cache": "Cache"}
 
@@ -156,9 +160,9 @@ def fold_item(it, ctx, path, rec):
     if k in CONSUMERS:
         rec[it[1]] = {"kind": k, "path": path, "ctx": copy.deepcopy(ctx), "item": it}
         return ctx
-    if k == "data":
+    if k in ("data", "acc"):
         return ctx
-    if k in ("seq", "source", "tuple", "bare"):
+    if k in ("seq", "source", "tuple", "bare", "fcseq", "frseq"):
         return fold_items(it[1], ctx, path, rec)
     if k == "split":
         results = []
